@@ -1,5 +1,6 @@
 import ClusterVerif.Lemmas.C17Step
 import ClusterVerif.Lemmas.C17Fault
+import ClusterVerif.Lemmas.C17Depart
 import ClusterVerif.Gen.C17
 
 /-!
@@ -741,5 +742,100 @@ def partitionCase (res : Res) (has : Has) (peers : List Nat) : FCase :=
     obs := { members := [0, 1, 2].map (fun i => ({ id := i, peers := peers, pins := [], nonvoters := [] } : MemberObs)), gone := [] } }
 example : fAllowed (partitionCase .err .all [0, 1, 2]) = true ∧ fHolds (partitionCase .err .all [0, 1, 2]) = true ∧
     fAllowed (partitionCase .ok .all [0, 1, 2]) = false ∧ fHolds (partitionCase .ok .all [0, 1, 2]) = false := by decide
+
+/-! ## Round 8 — departure of a peer: who starts `Shutdown`, and with which flag
+
+`Gen.shutdownSites` (regenerated from cluster.go on every run) lists every place that starts `c.Shutdown` with its
+enclosing conditions and whether `c.removed = true` dominates it. `Shutdown` reads `removed` once: a start that is not
+preceded by the assignment never reaches `consensus.Clean`. -/
+
+/-- today's sites as the model's structure -/
+def codeSites : List Site := Gen.shutdownSites.map Site.ofGen
+
+/-- on today's source every site is one the model understands (`watchPeers` on `!hasMe`, start-up failures of
+    `NewCluster` / `ready()` before `readyB`), every start caused by the peer's absence from the peerset carries the flag,
+    and a removal decided elsewhere is noticed -/
+theorem gen_shutdown_sites_safe : sitesSafe codeSites = true := by decide
+
+/-- ANY safe site list, ANY history of removals by others, self-removals (succeeding or failing), watch rounds (answered or
+    not), operator stops (leaving or not, `RmPeer(self)` succeeding or not) and writes, any `backups_rotate`, any
+    `data_folder` spelling: a peer that has stopped and is no member any more holds no consensus data — unless the
+    history left the statement (`outside`: stopped by the operator after its removal and before its watch round, or
+    removed while down; both refuted below). -/
+theorem departure_cleans (sites : List Site) (hs : sitesSafe sites = true) (keep : Nat) (slash leave : Bool)
+    (backups : Nat) (evs : List DEv) :
+    let st := depRun sites keep slash (freshPeer leave backups) evs
+    st.outside = false → st.f.shutdown = true → st.member = false → st.disk.data = false := by
+  intro st ho hsd hm
+  have hi : DepInv st := depRun_inv hs keep slash evs (freshPeer leave backups) ⟨rfl, Or.inr rfl⟩
+  rcases hi.2 with h | h
+  · rw [ho] at h; cases h
+  · unfold departedClean at h
+    rw [hsd, hm] at h
+    simpa using h
+
+/-- … in particular for the sites of today's cluster.go -/
+theorem departure_cleans_code (keep : Nat) (slash leave : Bool) (backups : Nat) (evs : List DEv) :
+    let st := depRun codeSites keep slash (freshPeer leave backups) evs
+    st.outside = false → st.f.shutdown = true → st.member = false → st.disk.data = false :=
+  departure_cleans codeSites gen_shutdown_sites_safe keep slash leave backups evs
+
+def selfRemovalHistory : List DEv :=
+  [.write true, .selfRemove true true true, .tick false true true, .write false, .tick true true true]
+example : (depRun codeSites 2 false (freshPeer false 0) selfRemovalHistory).outside = false ∧
+    (depRun codeSites 2 false (freshPeer false 0) selfRemovalHistory).f.shutdown = true ∧
+    (depRun codeSites 2 false (freshPeer false 0) selfRemovalHistory).member = false ∧
+    (depRun codeSites 2 false (freshPeer false 0) selfRemovalHistory).disk = ⟨false, false, 0⟩ ∧
+    (depRun codeSites 2 false (freshPeer false 0) selfRemovalHistory).acts = [Act.consShutdown, Act.clean, Act.done] := by decide
+
+/-- a running, ready peer that is no member any more stops AND cleans at its next answered watch round (safe sites) -/
+theorem removed_peer_stops_at_watch_round (sites : List Site) (hs : sitesSafe sites = true) (keep : Nat) (slash : Bool)
+    (st : PSt) (p r : Bool) (hrun : st.f.shutdown = false) (hrd : st.f.ready = true) (hm : st.member = false) :
+    let st' := depStep sites keep slash st (.tick true p r)
+    st'.f.shutdown = true ∧ st'.disk.data = false := by
+  simp only [depStep, hrun, hm, Bool.not_true, Bool.or_false, Bool.false_eq_true, if_false]
+  unfold fire
+  simp only [safe_has_absent hs, Bool.false_eq_true, if_false, safe_hit_flagged hs .absent (Or.inl rfl), Bool.or_true]
+  have := doShutdown_removed keep slash { st with f := { st.f with removed := true } } p r hrun hrd rfl
+  exact ⟨this.2.1, this.1⟩
+
+/-- the refuted alternative (seeded change C17f): `PeerRemove` starts `Shutdown` for `pid == c.id` without the flag. The
+    site list is not safe, and the history "the peer removes itself" ends with a stopped non-member that kept raft.db
+    and its snapshot — inside the statement (`outside = false`), whatever `leave_on_shutdown` is when the second
+    `RmPeer(self)` cannot succeed any more. The same edit with the flag assigned first is safe. -/
+theorem early_shutdown_keeps_data :
+    sitesSafe earlyShutdownSites = false ∧
+    (∀ leave : Bool,
+      let st := depRun earlyShutdownSites 2 false (freshPeer leave 0) [.write true, .selfRemove true true false]
+      st.outside = false ∧ st.f.shutdown = true ∧ st.member = false ∧ st.disk.data = true ∧ st.acts.contains .clean = false) ∧
+    sitesSafe earlyFlaggedSites = true := by decide
+
+/-- every unflagged self-removal site is refuted, not only the seeded one: if some site fires on `PeerRemove(self)`
+    without the flag, the one-step history "remove yourself" leaves a stopped non-member with its data -/
+theorem unflagged_self_removal_refuted (sites : List Site) (s : Site) (hin : s ∈ sites)
+    (hc : classify s = some .selfRemoved) (hf : s.flagged = false) (keep : Nat) (slash : Bool) (backups : Nat) :
+    let st := depRun sites keep slash (freshPeer false backups) [.selfRemove true true true]
+    st.outside = false ∧ st.f.shutdown = true ∧ st.member = false ∧ st.disk.data = true := by
+  have hmem : s ∈ sites.filter (fun s => classify s == some Trig.selfRemoved) :=
+    List.mem_filter.mpr ⟨hin, by simp [hc]⟩
+  have hne : (sites.filter (fun s => classify s == some Trig.selfRemoved)).isEmpty = false := by
+    cases hl : sites.filter (fun s => classify s == some Trig.selfRemoved) with
+    | nil => rw [hl] at hmem; cases hmem
+    | cons a l => rfl
+  have hall : (sites.filter (fun s => classify s == some Trig.selfRemoved)).all (·.flagged) = false := by
+    rw [Bool.eq_false_iff]
+    intro h
+    rw [List.all_eq_true] at h
+    have := h s hmem
+    rw [hf] at this; cases this
+  simp [depRun, depStep, freshPeer, fire, hne, hall, doShutdown, shutdownActs]
+
+/-- outside the statement, and really kept by the code (model witnesses; see notes, Round 8): (a) another member removes the
+    peer and the operator stops it before its next watch round; (b) the peer is removed while it is down -/
+theorem stop_before_watch_round_keeps_data :
+    (let st := depRun codeSites 2 false (freshPeer false 0) [.removedByOther, .stop true true]
+     st.outside = true ∧ st.f.shutdown = true ∧ st.member = false ∧ st.disk.data = true) ∧
+    (let st := depRun codeSites 2 false (freshPeer false 0) [.stop true true, .removedByOther]
+     st.outside = true ∧ st.f.shutdown = true ∧ st.member = false ∧ st.disk.data = true) := by decide
 
 end CV.C17
